@@ -84,8 +84,10 @@ def c02(tier, replay):
     run.cov["bfs_chain_events"] = summ.get("bfs_events", 0)
     run.cov["family_chain_events"] = summ.get("family_events", 0)
     R.need(totals, ["gen", "castle", "ep", "promo"])
+    R.family_direction_a(run, "C02", ("successor-after", "text-printed"), {"castle": 6, "ep": 60, "promo": 8, "rookcap": 4} if q else {"castle": 1, "ep": 3, "promo": 1, "rookcap": 1},
+                         fams=("castle", "ep", "promo", "rookcap"))
     model_game(run, tier)
-    run.cov["rule"] = RULE_TEXT % n_seeds() + ("; compared per successor: placement, side, rights, ep target, king cache = "
+    run.cov["rule"] = RULE_TEXT % n_seeds() + ("; direction spec->code: for every special move (castling, en passant, promotion, landing on a corner) of the TLC-enumerated families the engine's successor object and printed text against Chess!Apply / MoveText; compared per successor: placement, side, rights, ep target, king cache = "
                                                "Chess!Apply; descriptor in Legal; the engine's own printed bestmove text = Chess!MoveText")
     return run.finish()
 
@@ -105,6 +107,8 @@ def c04(tier, replay):
     # the position command inside the real command loop (instrumented binary): board after every position command
     import checks_uci
     checks_uci.position_dumps(run, "C04", tier)
+    R.family_direction_a(run, "C04", ("text-after",), {"castle": 8, "ep": 80, "promo": 10, "rookcap": 5} if tier == "quick" else {"castle": 1, "ep": 3, "promo": 1, "rookcap": 1},
+                         fams=("castle", "ep", "promo", "rookcap"))
     R.games_direction_a(run, "C04", ("text-apply", "text-apply-panic", "position-final", "position-panic"), 25 if tier == "quick" else 300)
     model_game(run, tier)
     run.cov["rule"] = RULE_TEXT % n_seeds() + ("; direction spec->code: games simulated by TLC from Chess.tla replayed through make_move / play_out_position at every prefix; every generated successor's printed text is replayed through uci::make_move and "
